@@ -129,6 +129,7 @@ class CSym(object):
         # footprint mode (C10): only the read / write *sets* matter.  Values of double locations are never forwarded (a read of a location
         # written earlier yields an unconstrained real), loop-carried real scalars with a non-additive update are havocked.
         self.footprint = footprint
+        self.hyps = []                        # the function's `requires` (used when separating a read from an earlier write)
         self.private_names = set()            # scalars / pointers declared inside a parallel region or named in private-like clauses
         self.in_single = 0
         self.phase = 0                        # barrier phase counter (explicit barriers, end of omp for / single, region boundaries)
@@ -655,6 +656,9 @@ class CSym(object):
             # max(hi - lo, 0) with an undetermined sign: name it, and record its definition as an assumption usable by every obligation
             nv = fresh("niter")
             d_ = hi_t - lo_t
+            if not hasattr(self, "niter_defs"):
+                self.niter_defs = {}
+            self.niter_defs[nv] = d_
             self.side.append(("assume", tm.mk_and(tm.mk_le(tm.ZERO, nv), tm.mk_le(d_, nv), tm.mk_or(tm.mk_eq(nv, tm.ZERO), tm.mk_eq(nv, d_))), tuple(self.guards), tuple(self.qvars), self.fn_stack[-1]))
             niter = nv
         for name in carried:
@@ -1142,7 +1146,7 @@ class CSym(object):
                         raise CUnsupported("read of %s written under a different guard" % p.arr.name)
                     return e.val
                 if len(eq_) == len(cur_q) or any(q in tm.subterms(e.idx).values() for q in eq_):
-                    ok = smt.check_sat(list(self.guards) + list(e.guards) + [tm.mk_eq(e.idx, p.off)], 3.0, use_cvc5=False)[0]
+                    ok = smt.check_sat(list(self.hyps) + list(self.guards) + list(e.guards) + [tm.mk_eq(e.idx, p.off)], 3.0, use_cvc5=False)[0]
                     if ok != "unsat":
                         raise CUnsupported("cannot separate a read of %s[%s] from the earlier write %s[%s]" % (p.arr.name, tm.show(p.off, 40), e.arr.name, tm.show(e.idx, 40)))
                 continue
